@@ -462,7 +462,10 @@ def main():
         "undecided": run.undecided[:20], "checker_errors": run.errors[:20],
         "known_findings_hit": [k[0] for k in run.known],
         "known_finding_obligations_excluded_from_counts": sorted(n for n, i in summ.items() if i.get("known")),
-        "explanation": P.get("explanation", ""),
+        "explanation": (P.get("level_text", "") + f" This run: {n_dis}/{n_obl} proof obligations discharged over "
+                        f"{len(run.functions)} functions under contract"
+                        + (f"; bounded stand-in (not counted as proved): {bounded.get('evaluations')} evaluations, "
+                           f"{len(bounded.get('violations', []))} contract failures" if bounded else "") + "."),
         "samples": samples,
         "not_under_contract": P.get("unverified", []),
         "callees_inlined_without_own_contract": sorted(run.engine.auto_inlined) if run.engine else [],
